@@ -4,8 +4,9 @@ import UmGen.Consts
 /-!
 # The in-memory metadata broker (`src/broker/{store,update,migrate,query}.rs`)
 
-State mirrors `MetaStore` field by field (non-ordered mode; `enable_ordered_proxy = true` is not
-modelled). `&mut self` methods are functions `Store → … → Store × R`, because several of them
+State mirrors `MetaStore` field by field, including `enable_ordered_proxy` (`Store.ordered`; the
+ordered mode used for Kubernetes StatefulSets: proxies carry an `index`, at most one cluster,
+chunks are allocated in index order, a failed proxy is never replaced). `&mut self` methods are functions `Store → … → Store × R`, because several of them
 mutate the store (bump the global epoch) *before* they validate. `expect()`/index panics are the
 explicit result `R.panic`. `HashMap`-order dependent choices (chunk allocation, replacement
 proxy) are *parameters* (`choice`) that the model validates against the set of choices the
@@ -80,9 +81,25 @@ structure Store where
   proxies : List ProxyRes
   failed : List String
   failures : List (String × List (String × Int))
+  /-- `enable_ordered_proxy` (fixed at construction: `MetaStore::new(enable_ordered_proxy)`) -/
+  ordered : Bool
   deriving Repr, Inhabited
 
-def Store.init : Store := { globalEpoch := 0, clusters := [], proxies := [], failed := [], failures := [] }
+/-- `MetaStore::new(false)` -/
+def Store.init : Store :=
+  { globalEpoch := 0, clusters := [], proxies := [], failed := [], failures := [], ordered := false }
+
+/-- `MetaStore::new(true)` -/
+def Store.initOrdered : Store := { Store.init with ordered := true }
+
+/-- nothing has happened yet (`Store.init` or `Store.initOrdered`) -/
+def Store.isFresh (s : Store) : Bool :=
+  s.globalEpoch == 0 && s.clusters.isEmpty && s.proxies.isEmpty && s.failed.isEmpty && s.failures.isEmpty
+
+/-- selection of the mode at construction time: only a store on which nothing has happened yet
+can (still) be switched to ordered mode; any other store is left as it is. This is the model of
+`MetaStore::new(true)`, *not* an operation of the running broker (see `Op.setOrdered`). -/
+def Store.setOrdered (s : Store) : Store := if s.isFresh then { s with ordered := true } else s
 
 /-- `MetaStoreError` (only the codes the modelled operations can return) -/
 inductive Err where
@@ -90,6 +107,7 @@ inductive Err where
   | freeNodeNotFound | freeNodeFound | proxyNotFound | invalidNodeNum | nodeNumAlreadyEnough
   | invalidClusterName | invalidMigrationTask | invalidProxyAddress | migrationTaskNotFound
   | migrationRunning | invalidConfig | slotsAlreadyEven | smallEpoch
+  | missingIndex | proxyResourceOutOfOrder | oneClusterAlreadyExisted
   deriving DecidableEq, Repr
 
 def Err.code : Err → String
@@ -102,6 +120,8 @@ def Err.code : Err → String
   | .invalidProxyAddress => "INVALID_PROXY_ADDRESS" | .migrationTaskNotFound => "MIGRATION_TASK_NOT_FOUND"
   | .migrationRunning => "MIGRATION_RUNNING" | .invalidConfig => "INVALID_CONFIG"
   | .slotsAlreadyEven => "SLOTS_ALREADY_EVEN" | .smallEpoch => "EPOCH_SMALLER_THAN_CURRENT"
+  | .missingIndex => "MISSING_SERVER_PROXY_INDEX" | .proxyResourceOutOfOrder => "PROXY_RESOURCE_OUT_OF_ORDER"
+  | .oneClusterAlreadyExisted => "ONE_CLUSTER_ALREADY_EXISTED"
 
 /-- result of an operation: `panic` is an `expect`/index/arithmetic-underflow failure of the
 Rust code, `badChoice` means the supplied nondeterministic choice is not one the code can make -/
@@ -203,12 +223,21 @@ def colonCount (a : String) : Nat := (a.toList.filter (· == ':')).length
 
 def hostOfAddr (a : String) : String := String.ofList (a.toList.takeWhile (· != ':'))
 
-def addProxy (s : Store) (addr n0 n1 : String) (host : Option String) : Store × R Unit :=
+/-- the `index` stored by `add_proxy`: `0` in normal mode whatever was passed, the supplied one
+in ordered mode (`none` = `MissingIndex`) -/
+def proxyIndex (s : Store) (index : Option Nat) : Option Nat :=
+  if s.ordered then index else some 0
+
+def addProxy (s : Store) (addr n0 n1 : String) (host : Option String) (index : Option Nat) :
+    Store × R Unit :=
   if colonCount addr != 1 then (s, .err .invalidProxyAddress) else
   let h := host.getD (hostOfAddr addr)
+  match proxyIndex s index with
+  | none => (s, .err .missingIndex)
+  | some idx =>
   let existed := (s.findProxy addr).isSome
   let proxies := if existed then s.proxies
-    else s.proxies ++ [{ addr := addr, node0 := n0, node1 := n1, host := h, index := 0, cluster := none }]
+    else s.proxies ++ [{ addr := addr, node0 := n0, node1 := n1, host := h, index := idx, cluster := none }]
   let cleared := s.failed.contains addr || s.hasFailureKey addr
   let s1 := { s with proxies := proxies, failed := s.failed.filter (· != addr),
                       failures := s.failures.filter (·.1 != addr) }
@@ -346,6 +375,64 @@ def generateFreeChunks (s : Store) (proxyNum : Nat) (choice : List (String × St
   let st ← allocLoop { free := counts, links := links, pool := s.freeProxies, out := [] } choice
   pure st.out
 
+/-! ## ordered mode: `generate_free_chunks_for_ordered_proxy_index` -/
+
+/-- sorted insertion / insertion sort of the proxy indices: `sort_by_key(index)` as far as the
+*indices* are concerned (any sorting algorithm yields the same list of numbers; structural
+recursion so that the kernel can evaluate it) -/
+def insertNat (x : Nat) : List Nat → List Nat
+  | [] => [x]
+  | y :: ys => if x ≤ y then x :: y :: ys else y :: insertNat x ys
+
+def sortNat : List Nat → List Nat
+  | [] => []
+  | x :: xs => insertNat x (sortNat xs)
+
+/-- `Itertools::chunks(2)` over an even-length list -/
+def pairUp : List ProxyRes → List (ProxyRes × ProxyRes)
+  | a :: b :: rest => (a, b) :: pairUp rest
+  | _ => []
+
+/-- the proxies the implementation took, checked against what the stable sort by `index` of the
+free proxies (HashMap order) followed by `truncate` can produce: the `i`-th taken proxy is a
+free proxy whose index is `firstIndex + i` (only the last position can be tied, see
+`generateFreeChunksOrdered`) -/
+def orderedPick (free : List ProxyRes) : Nat → List String → R (List ProxyRes)
+  | _, [] => pure []
+  | i, a :: rest =>
+    match free.find? (·.addr == a) with
+    | none => R.badChoice s!"proxy {a} is not a free proxy"
+    | some p =>
+      if p.index != i then R.badChoice s!"proxy {a} has index {p.index}, expected {i}" else do
+        let tl ← orderedPick free (i + 1) rest
+        pure (p :: tl)
+
+/-- `generate_free_chunks_for_ordered_proxy_index(proxy_num, first_index)`: the free proxies
+sorted by index and truncated to `proxyNum` must carry the indices `firstIndex, firstIndex + 1, …`
+(`ProxyResourceOutOfOrder` otherwise — this depends on the multiset of indices only, not on the
+HashMap order); consecutive pairs form the chunks. Free proxies with *equal* indices are ordered
+by the HashMap iteration order; within the checked window all indices are distinct, so only the
+last taken proxy can be one of several with the same index: `choice` (the chunks the
+implementation produced) is validated by `orderedPick`. -/
+def generateFreeChunksOrdered (s : Store) (proxyNum firstIndex : Nat) (choice : List (String × String)) :
+    R (List (ProxyRes × ProxyRes)) := do
+  let free := s.freeProxies
+  if free.length < proxyNum then R.err .noAvailableResource else
+  let idxs := (sortNat (free.map (·.index))).take proxyNum
+  if idxs != (List.range proxyNum).map (firstIndex + ·) then R.err .proxyResourceOutOfOrder else
+  -- a trailing half chunk ("Cannot get second host proxy"); `proxyNum` is even for every caller
+  if proxyNum % 2 != 0 then R.err .invalidNodeNum else
+  let addrs := choice.flatMap fun c => [c.1, c.2]
+  if addrs.length != proxyNum then R.badChoice s!"expected {proxyNum / 2} chunks, got {choice.length}" else
+  let picked ← orderedPick free firstIndex addrs
+  pure (pairUp picked)
+
+/-- the allocator of `add_cluster` / `auto_add_nodes`, selected by the mode -/
+def allocChunks (s : Store) (proxyNum firstIndex : Nat) (choice : List (String × String)) :
+    R (List (ProxyRes × ProxyRes)) :=
+  if s.ordered then generateFreeChunksOrdered s proxyNum firstIndex choice
+  else generateFreeChunks s proxyNum choice
+
 /-- `proxy_resource_to_chunk_store` -/
 def createSlots (average remainder : Nat) (index curr : Nat) : R (RangeList × Nat) :=
   let r := if index < remainder then 1 else 0
@@ -387,13 +474,14 @@ def tagProxies (s : Store) (addrs : List String) (name : String) : R Store :=
 /-- `add_cluster` -/
 def addCluster (s : Store) (name : String) (nodeNum : Nat) (cfg : Config)
     (choice : List (String × String)) : Store × R Unit :=
+  if s.ordered && !s.clusters.isEmpty then (s, .err .oneClusterAlreadyExisted) else
   if !validName name then (s, .err .invalidClusterName) else
   if (s.findCluster name).isSome then (s, .err .alreadyExisted) else
   if nodeNum % 4 != 0 then (s, .err .invalidNodeNum) else
   let proxyNum := nodeNum / 2
   if proxyNum == 0 then (s, .err .invalidNodeNum) else
   match (do
-    let arr ← generateFreeChunks s proxyNum choice
+    let arr ← allocChunks s proxyNum 0 choice
     let chunks ← proxyResourceToChunkStore arr true
     let s1 := s.bump
     let cl : Cluster := { epoch := s1.globalEpoch, name := name, chunks := chunks, config := cfg }
@@ -426,7 +514,7 @@ def autoAddNodes (s : Store) (name : String) (num : Nat) (choice : List (String 
     let proxyNum := num / 2
     if proxyNum == 0 then (s, .err .invalidNodeNum) else
     match (do
-      let arr ← generateFreeChunks s proxyNum choice
+      let arr ← allocChunks s proxyNum (cl.chunks.length * 2) choice
       let chunks ← proxyResourceToChunkStore arr false
       let s1 := s.bump
       let cl' := { cl with chunks := cl.chunks ++ chunks, epoch := s1.globalEpoch }
@@ -888,6 +976,8 @@ def replaceFailedProxy (s : Store) (failedAddr : String) (choice : String) : Sto
     | some name =>
       match takeoverMaster s name failedAddr with
       | (s1, .ok ()) =>
+        -- "If enable_ordered_proxy is true, we won't replace the proxy."
+        if s1.ordered then (s1.bump, .ok none) else
         let s2 := { s1 with failed := if s1.failed.contains failedAddr then s1.failed else s1.failed ++ [failedAddr] }
         match generateNewFreeProxy s2 failedAddr choice with
         | .ok np =>
